@@ -14,12 +14,12 @@ CHECKS = {
          "Runtime monitoring over generated programs (all aliasing/fold/dedup/fusion shapes, 8 field setups, satisfying and perturbed inputs). Holds on the executions observed; catches miscompilations that need a specific program shape.",
          "DESIGN.md §3 C02", TRUSTED),
  "C01": ("fault_enumeration", "differential runtime monitor: native uni-STARK / batch-STARK verifiers vs the verification circuit (built once per honest shape, real runner) on honest proofs, on every single-leaf mutation of proof / public values / common data, and on forged proofs pushed through the real prover",
-         "28-42 proof shapes x 6 configurations (BabyBear/KoalaBear D4, KoalaBear quintic, Goldilocks D2, hiding PCS over plain and salted MMCS); exhaustive leaf sweep per shape; verdict agreement is the oracle. Poseidon1 challengers, arity-4 MMCS, cap height > 0 are covered at the MMCS/FRI level by C07/C08 only.",
+         "35-49 proof shapes x 9 configurations (BabyBear/KoalaBear D4, KoalaBear quintic, Goldilocks D2, hiding PCS over plain and salted MMCS, Merkle caps of height 2 over plain and salted MMCS, FRI arity 4 with two-height batches); exhaustive leaf sweep per shape; verdict agreement is the oracle. Poseidon1 challengers and arity-4 MMCS are covered at the MMCS/FRI level by C07/C08 only.",
          "DESIGN.md §3 C01", TRUSTED),
  "C14": ("fault_enumeration", "runtime monitor on packed inputs: lengths vs the circuit's expectations, value held after an honest run by every allocated proof target vs the proof element it must carry (independent parallel walkers), and single-position perturbation of every packed position vs the native verdict",
          "Exhaustive over targets and packed positions of every shape of C01's shape list.",
          "DESIGN.md §3 C14", TRUSTED),
- "C15": ("fault_enumeration", "runtime fault injection on proof structure: every array node / option / non-field integer of proof, common data and parameters structurally mutated and fed to the circuit builders in memory-limited child processes; panics, aborts and circuits accepting what native rejects are violations",
+ "C15": ("fault_enumeration", "runtime fault injection on proof structure: every array node / option / non-field integer of proof, common data and parameters structurally mutated and fed to the circuit builders in memory-limited child processes; an optional part added where the shape has none is part of the mutant set; panics, aborts, circuits accepting what native rejects, and a builder returning Ok for what the native verifier rejects for a structural reason are violations",
          "Exhaustive structural mutants per shape (9 shapes quick, all thorough) x 4-5 entry points (verify_p3_uni_proof_circuit, verify_p3_batch_proof_circuit, verify_batch_circuit, verify_fri_circuit, build_next_layer_circuit). Panics inside native verifiers are observations only.",
          "DESIGN.md §3 C15", TRUSTED),
  "C04": ("fault_enumeration", "runtime fault injection on execution traces: honest Traces of generated programs are forged (table cell, slot value on all tables, constants, public cells), labelled by an independent op-relation evaluator, proven with the honest prover data and shown to the real verifier",
@@ -28,13 +28,13 @@ CHECKS = {
  "C05": ("exploration", "differential runtime monitor over call histories: random interleavings of observe/sample/sample_bits/check_pow_witness/clear are executed by the in-circuit challenger (real runner) and by the native DuplexChallenger; every sampled value, bit vector and PoW verdict compared",
          "Random histories biased to buffer boundaries over 12 challenger configurations (Poseidon1/2, D1/D2/D4/D5-over-D1, recompose table on/off); distinct buffer-state paths are counted in the evidence.",
          "DESIGN.md §3 C05", TRUSTED),
- "C06": ("fault_enumeration", "runtime fault injection with deviating executors: histories are run with a permutation executor / decomposition hints that deviate on values the verifier does not fix, the traces are proven with the honest prover data and verified; accepted proofs must carry the native challenges",
+ "C06": ("fault_enumeration", "runtime fault injection with deviating executors: histories are run with a permutation executor / decomposition hints that deviate on values the verifier does not fix (permutation outputs, and non-bus INPUT lanes of a permutation row forged in the trace with the row recomputed and carried), the traces are proven with the honest prover data and verified; accepted proofs must carry the native challenges",
          "Per configuration: every limb class (rate, capacity, single limb, high coefficients) x value kinds x permutation index, plus non-canonical decomposition hints; 8 provable configurations x recompose on/off.",
          "DESIGN.md §3 C06", TRUSTED),
  "C18": ("exploration", "runtime monitor over repeated executions: each program is rebuilt several times in-process (fresh hash seeds per map) and in freshly spawned processes; canonical digests of ops, numbering, maps, preprocessed columns, AIR order and preprocessed commitment are compared; a canary map shows the iteration-order dimension was varied",
          "Generated programs on 8 setups plus NPO-rich BabyBear D4 circuits (Poseidon2 + recompose, tags, connects); 5-8 in-process repetitions and 3-6 processes each. Hash seeds are sampled, a non-determinism needing a specific collision can be missed; the `parallel` feature is not varied.",
          "DESIGN.md §3 C18", TRUSTED),
- "C19": ("fault_enumeration", "runtime fault injection on the runner API executed under two build profiles and under the Miri interpreter: each (circuit, input fault) is run by the release binary, by a dev-profile build and (sample) under Miri; outcomes compared, Ok on a faulted run or any UB report is a violation",
+ "C19": ("fault_enumeration", "runtime fault injection on the runner API executed under two build profiles, under the Miri interpreter and under valgrind memcheck: each (circuit, input fault) is run by the release binary, by a dev-profile build, (sample) under Miri and (thorough, sample) by the release binary under memcheck; outcomes compared, Ok on a faulted run or any UB report is a violation",
          "Faults: inputs withheld / short / long / set twice / conflicting, private data missing / duplicated / wrong type / wrong size / unknown op, non-boolean direction bit; circuits whose inputs feed ALU rows, hints and Poseidon2 rows (sponge, chained, Merkle) directly.",
          "DESIGN.md §3 C19", TRUSTED),
  "C07": ("fault_enumeration", "differential runtime monitor at the PCS boundary: native TwoAdicFriPcs/HidingFriPcs verify vs the in-circuit FRI verifier on honest proofs, on every single-leaf mutation of the proof/claims/commitments and on prover-side faults (deviating challenger)",
@@ -46,7 +46,7 @@ CHECKS = {
  "C10": ("exploration", "runtime pipeline monitor: generated programs with satisfying inputs are taken through the real build -> key generation -> run -> prove -> verify under random prover configurations; failures are classified with the bus monitor",
          "Programs from the generator (3/4 in the dialect that avoids known-broken constructs) x random packings, 8 field setups, plus the directed shapes named by the property.",
          "DESIGN.md §3 C10", TRUSTED),
- "C12": ("fault_enumeration", "runtime fault injection with deviating hint executors: the decomposition hints of circuits using decompose_to_bits / decompose_ext_to_base_coeffs are replaced by alternatives satisfying the recomposition identity; traces are proven with the honest prover data and verified",
+ "C12": ("fault_enumeration", "runtime fault injection with deviating hint executors: the decomposition hints of circuits using decompose_to_bits / decompose_ext_to_base_coeffs are replaced by alternatives satisfying the recomposition identity (bits of x+kp, one non-boolean bit compensating a flipped one, moved coefficient mass); traces are proven with the honest prover data and verified",
          "Value classes (0, 1, small, around the 2^n-p slack, p-1, random) x widths x k in 1..3 for bits; three mass-moving families for coefficients, ALU and recompose-table paths; 8 field setups. Challenger gadgets are covered by C06.",
          "DESIGN.md §3 C12", TRUSTED),
  "C13": ("exploration", "differential runtime monitor: random symbolic constraint DAGs (and the repo's real AIRs) are compiled by the real symbolic compiler / eval_folded_circuit, run, and compared with the native verifier constraint folder on random assignments",
@@ -64,7 +64,7 @@ CHECKS = {
  "C16": ("fault_enumeration", "runtime fault injection on proof metadata: every self-declared metadata field of real circuit proofs (honest and of invalid traces) altered through the serialised form, verdict of the real verifier observed; serialisation round-trip differential",
          "Exhaustive single-field (sampled pairs) alteration of BatchStarkProof metadata on 6 configurations; a relying party pinning the preprocessed commitment never accepts an invalid-trace proof; codecs preserve the verdict. A verifier panic counts as (unclean) rejection and is reported as an observation.",
          "DESIGN.md §3 C16", TRUSTED),
- "C17": ("exploration", "runtime monitor over call histories of the real recursion API (next-layer / aggregation steps, adversarial cache offers): each output verified natively and fed to a further layer, cached vs uncached verdicts compared",
+ "C17": ("exploration", "runtime monitor over call histories of the real recursion API (next-layer / aggregation steps, adversarial cache offers): each output verified natively and fed to a further layer, cached vs uncached verdicts compared, and a state invariant of the aggregation cache slot (untouched, or fingerprint of the circuit just proven) asserted after every call that was handed a slot",
          "Random histories of depth 1-4 with parameter changes and cache slots filled by other circuits; histories are short because each step costs seconds.",
          "DESIGN.md §3 C17", TRUSTED),
  "C03": ("exploration", "runtime monitor with adversarial witness completion: the emitted op list is evaluated on its own by an independent relation checker and compared with the source program's relations; counter-examples are confirmed by proving a forged trace",
